@@ -205,6 +205,33 @@ def run(tier, seed):
             except Exception:
                 continue
             base.append((s, ps, nf, b, rb.nblocks, fo.getvalue()))
+    # enums with 65..130 symbols (index varints of two bytes from symbol 64 on) inside arrays, maps and records of
+    # constant-size fields — read and, above all, skipped
+    for i in range(scale(tier, 24)):
+        rr = random.Random(seed * 911 + i)
+        nsym = rr.choice([64, 65, 66, 100, 128, 129, 130])
+        en = {"type": "enum", "name": "Big", "symbols": ["S%d" % j for j in range(nsym)]}
+        inner = rr.choice([en, {"type": "record", "name": "Cell", "fields": [{"name": "e", "type": en}, {"name": "f", "type": "float"},
+                                                                           {"name": "b", "type": "boolean"}]}])
+        s = rr.choice([{"type": "array", "items": inner}, {"type": "map", "values": inner}])
+
+        def item():
+            sym = "S%d" % rr.choice([0, 1, 63, min(64, nsym - 1), nsym - 1, rr.randrange(nsym)])
+            return sym if inner is en else {"e": sym, "f": 0.5, "b": True}
+        v = [item() for _ in range(rr.randint(1, 5))] if s["type"] == "array" else {"k%d" % j: item() for j in range(rr.randint(1, 4))}
+        g0 = gen.Gen(seed + i)
+        ctx0 = gen.Ctx()
+        try:
+            ps = fastavro.parse_schema(json.loads(json.dumps(s)))
+            fo = io.BytesIO()
+            fastavro.schemaless_writer(fo, ps, v)
+            nf = fastavro.schemaless_reader(io.BytesIO(fo.getvalue()), ps)
+            rb = Reblock(rnd, g0, ctx0)
+            b = rb.enc(s, nf)
+        except Exception:
+            continue
+        base.append((s, ps, nf, b, rb.nblocks, fo.getvalue()))
+        run.tag("big-enum")
     # ---------------- (1) acceptance of every partition, value returned
     reqs = [{"op": "dec", "schema": to_wire(s), "bytes": b.hex() + "aa55"} for (s, ps, nf, b, nb, std) in base]
     mouts = run_batch(reqs)
@@ -223,6 +250,21 @@ def run(tier, seed):
         if not ("ok" in io_ and canon(io_["ok"]) == exp and io_["rest"] == 2):
             case["impl"] = io_
             run.fail(case, "spec-valid encoding (block partition) not decoded to the expected value", kind="oracle")
+        # the same encoding twice on an unbuffered forward-only io stream, one call per value
+        if k % 3 == 0:
+            from props.streams import RawForward
+            raw = RawForward(b + b)
+            for rep in range(2):
+                try:
+                    r2 = {"ok": to_wire(fastavro.schemaless_reader(raw, ps))}
+                except Exception as e:  # noqa
+                    r2 = {"err": exc_class(e), "msg": repr(e)[:80]}
+                if not ("ok" in r2 and canon(r2["ok"]) == exp and raw.consumed() == (rep + 1) * len(b)):
+                    case["impl_raw_stream"] = r2
+                    case["tags"] = ["raw-stream"]
+                    run.fail(case, "spec-valid encoding at the current position of an unbuffered stream (value %d of 2) not decoded" % (rep + 1), kind="oracle")
+                    break
+            run.tag("raw-stream")
         # skipped during resolution: writer {a: S, z: long}, reader {z: long}
         if souts[k].get("rest") != 2:
             raise MachineryError("model skip disagrees with the re-encoder: %s %s" % (json.dumps(case)[:400], souts[k]))
